@@ -33,7 +33,7 @@ func main() {
 		u := schema.ByName(univName)
 		rootAdjust(a.Gen, u)
 		switch hdr.Part {
-		case "C02":
+		case "C02", "C14W", "C15W":
 			var rp e2eReplay
 			a.LoadReplay(&rp)
 			var r *schema.Resource
@@ -205,7 +205,7 @@ func main() {
 	u := schema.ByName(univName)
 	rootAdjust(a.Gen, u)
 	switch a.Part {
-	case "C02":
+	case "C02", "C14W", "C15W":
 		partC02(a, rep, univName, u)
 	case "C07W":
 		partC07W(a, rep, univName, u)
